@@ -189,7 +189,6 @@ func isStruct(t reflect.Type) bool {
 }
 
 func isFunc(t reflect.Type) bool {
-	t = dereference(t)
 	if t != nil {
 		switch t.Kind() {
 		case reflect.Func:
